@@ -176,12 +176,14 @@ fn(HS + ".app_send", params={"message": "none | msg(headers:short;links:short)"}
    },
    props=("C02", "C03", "C05", "C12"))
 
-fn(HS + ".__init__",
+# inlined at its call sites (plain assignments), so that callers see the very objects they passed
+fn(HS + ".__init__", inline=True,
    params={"app": "opaque", "config": "obj hypercorn.config:Config", "context": "obj hypercorn.typing:WorkerContext", "task_group": "obj hypercorn.typing:TaskGroup",
            "ssl": "bool", "client": "opaque", "server": "opaque", "send": "opaque", "stream_id": "int"},
    ensures=[
        ("C01.scheme", "self.scheme == ('https' if ssl else 'http')", "C01"),
        ("HTTPStream.init.fresh", "not self.closed and self.state == ASGIHTTPState.REQUEST and self.stream_id == stream_id and not has(self, 'scope') and not has(self, 'response')", "C02"),
        ("HTTPStream.init.addresses", "same(self.client, client) and same(self.server, server)", "C01"),
+       ("HTTPStream.init.wiring", "same(self.app, app) and same(self.config, config) and same(self.context, context) and same(self.task_group, task_group)", "C01"),
    ],
    props=("C01",))
